@@ -150,10 +150,27 @@ def get_attribute(ctx, obj, name):
                 if hook is not None and name == 'format':
                     return hook(obj, a, k)
                 for x in a:
-                    if hasattr(x, 'sym_iterate') or hasattr(x, 'lazy_items'):
-                        ops.iterate(ctx, x)  # a generator argument is consumed (its element expressions are evaluated)
+                    if hasattr(x, 'sym_iterate') or hasattr(x, 'lazy_items') or (name == 'join' and isinstance(x, (list, tuple))):
+                        xs = ops.iterate(ctx, x)  # a generator argument is consumed (its element expressions are evaluated)
+                        if name == 'join' and len(a) == 1:
+                            from .tokstr import TokStr
+                            if not xs:
+                                return ''  # sep.join(()) == ''
+                            if any(isinstance(y, TokStr) for y in xs):
+                                return TokStr.of(obj).m_join(ctx, xs)  # token strings (pyvc/tokstr.py): exact concatenation
                 return SOpaque('str')
             return fmt
+        if name in ('lstrip', 'rstrip', 'strip', 'split', 'rsplit', 'partition', 'rpartition', 'startswith', 'endswith', 'upper', 'lower', 'isdigit', 'ljust', 'rjust'):
+            def strmethod(ctx, *a):
+                # a pure method of a CONCRETE str on concrete arguments: evaluated exactly
+                if not all(isinstance(x, (str, int, tuple)) or x is None for x in a):
+                    raise Unsupported('str.%s with a symbolic argument' % name)
+                try:
+                    r = getattr(obj, name)(*a)
+                except (TypeError, ValueError) as e:
+                    raise ops.pyraise_from(e)
+                return list(r) if isinstance(r, list) else r
+            return strmethod
         raise Unsupported('str method %s' % name)
     if obj is None or isinstance(obj, (bool, int, float)):
         raise PyRaise('AttributeError', note='%r object has no attribute %r' % (type(obj).__name__, name))
